@@ -343,8 +343,8 @@ func c24SchedRun(in c24SchedIn) (V, Verdict) {
 			cycleStrings[0] = c24CycleIDs(g, log)
 			// nothing flushed yet, or a flush is still reporting what it took from the pool
 			pooledRestart = in.Pool > 0 && (len(flushStart) == 0 || len(flushStart) > flushesDone)
-			st := stepPatient(s, in.NFlush+1, 10*time.Second)
-			_ = tRestart
+			idle := s.Status(agent) == "finished" // no callback under way: the new cycle's first one is due
+			st := stepPatient(s, tRestart, 10*time.Second)
 			if st != "finished" || restartErr != nil {
 				if verdict.OK {
 					verdict = Fail("restart-failed", fmt.Sprintf("status %s err %v", st, restartErr))
@@ -355,8 +355,7 @@ func c24SchedRun(in c24SchedIn) (V, Verdict) {
 			flags.SetBit(flags, step, 1)
 			expected += in.N + 1
 			agentDone = -1
-			if entered < expected && s.Status(agent) == "finished" {
-				// no callback is under way: the next one is due
+			if idle {
 				if !waitParked(s, agent, 10*time.Second) && verdict.OK {
 					verdict = Fail("agent-stopped-calling-back", "after the restart")
 				}
